@@ -14,7 +14,7 @@
 From Coq Require Import List ZArith QArith Bool Arith Relations Sorted.
 From EpyV Require Import Model.Kernel Model.Loci Model.Compart Proofs.KernelLoops
   Proofs.CompartRun Proofs.CompartInv Proofs.CompartDiagram Proofs.CompartModels
-  Proofs.ContactBase Proofs.ContactForest Proofs.ContactInv Proofs.ContactTime Proofs.ContactSync.
+  Proofs.ContactBase Proofs.ContactForest Proofs.ContactInv Proofs.ContactTime Proofs.ContactSync Proofs.ContactStoch.
 Import ListNotations.
 
 (* ---------------------------------------------------------------- the invariant *)
@@ -133,9 +133,20 @@ Proof.
   exact (strict_sync cm nodes edges init maxtime monitor Hwf Ho pf fuel rs ds Hg Hi).
 Qed.
 
-(* Gillespie dynamics, strictness: C08_times_increase with R := Qlt reduces it to "the infection
-   calls of the run have strictly increasing times" (true when every ln(1/r) drawn is > 0 and the
-   run does not get stuck); C08_times_strict_stoch below when present, else see the report. *)
+(* STRICTLY later, Gillespie dynamics: probabilities >= 0, every ln(1/r) the oracle serves > 0 (r in
+   (0,1)), and a run that did not exhaust its fuel or oracle (once stuck the model loops on default
+   values): the loop time never decreases (C03), every hitting time so far is <= it, and the next
+   stochastic event comes dt > 0 later *)
+Theorem C08_times_strict_stoch : forall cm nodes edges init maxtime monitor pf fuel rs ls ds,
+  let tb := mk_table cm nodes edges init maxtime monitor in
+  wf_model cm = true -> once_model cm = true -> graph_okb nodes edges = true -> init_ok cm nodes init = true ->
+  (forall ev, In ev (cm_events cm) -> (0 <= ce_p ev)%Q) -> Forall (Qlt 0) ls ->
+  let r := stoch_run tb pf fuel rs ls ds in r_stuck r = false ->
+  forall n m t t', In (n, m, t) (cw_occ (world (r_final r))) -> In (m, t') (cw_hit (world (r_final r))) -> (t' < t)%Q.
+Proof.
+  intros cm nodes edges init maxtime monitor pf fuel rs ls ds tb Hwf Ho Hg Hi Hnn Hls.
+  exact (strict_stoch cm nodes edges init maxtime monitor Hwf Ho Hnn pf fuel rs ls ds Hg Hi Hls).
+Qed.
 
 (* ---------------------------------------------------------------- C08_acyclic *)
 (* the occupied edges, oriented infected -> infector: the infector is unique, no cycle, and every
